@@ -9,14 +9,14 @@ import numpy as np
 from harness.engine import impl, tlc
 from harness.engine.report import Report
 from harness.drivers import driver_pipeline as DP
-from harness.drivers.c13_driver import MC_CFG, conclude
+from harness.drivers.c13_driver import mc_cfg, conclude
 
 PROP = 'C14'
 
 
 def model_check(rep, tier):
     for k, a, style, sub, res in [(4, 6, 'WholeGrid', 'FALSE', 'TRUE'), (4, 6, 'NewAreasOnly', 'TRUE', 'TRUE')]:
-        cfg = MC_CFG % (k, a, style, sub, res) + 'INVARIANT C05_ResultIsCombination\n'
+        cfg = mc_cfg(k, a, style, sub, res) + 'INVARIANT C05_ResultIsCombination\n'
         r, _ = tlc.run('MC_Driver', cfg, PROP.lower(), timeout=1500)
         rep.tlc('Driver MAXK=%d MAXAREAS=%d %s subtract_old=%s resume=%s' % (k, a, style, sub, res), r)
         if r.violated:
@@ -24,7 +24,7 @@ def model_check(rep, tier):
         if r.action_counts.get('Resume', (0, 0))[1] == 0:
             raise tlc.TLCError('vacuous: Resume never taken')
     # the bookkeeping as implemented (new areas are added again after a resume): TLC must find the counterexample
-    cfg = MC_CFG % (4, 6, 'NewAreasOnly', 'FALSE', 'TRUE') + 'INVARIANT C05_ResultIsCombination\n'
+    cfg = mc_cfg(4, 6, 'NewAreasOnly', 'FALSE', 'TRUE') + 'INVARIANT C05_ResultIsCombination\n'
     r, _ = tlc.run('MC_Driver', cfg, PROP.lower(), timeout=1500)
     rep.cov['model_predicts_resume_double_count'] = 'C05_ResultIsCombination' in r.violated
     rep.tlc('Driver NewAreasOnly as implemented, resume allowed (counterexample expected)', r, violated=r.violated)
@@ -93,20 +93,35 @@ def run(tier, seed):
             rep.exclude('%s: probe timed out' % name)
             continue
         for j in range(len(nps) - 1):      # interrupt right after evaluation j+1
-            for mode in ('continue', 'save-restore', 'continue-tol0', 'continue-container'):
+            for mode in ('continue', 'save-restore', 'continue-tol0', 'continue-container', 'single-step-chain'):
                 lims = {'tol': -1.0, 'min': 1, 'max': (nps[j] - 1) if j > 0 else 0}
                 if mode == 'continue-tol0':
                     # first phase stopped by a positive tolerance, continued with tolerance 0 (never met) and the final budget
                     if not errs[j] or errs[j] <= 0:
                         continue
                     lims = {'tol': float(errs[j]), 'min': 1, 'max': None}
-                if mode == 'continue-container' and c['strategy'] != 'dimwise':
+                if mode in ('continue-container', 'single-step-chain') and c['strategy'] != 'dimwise':
                     # extend-split / cell: benefits divide by evaluation counts taken from the integrand's cache, which a new call starts afresh -
-                    # the continuation through a new call is not comparable there (and the re-evaluated new areas are the recorded finding)
+                    # the continuation through a new call is not comparable there
                     continue
+                if mode == 'single-step-chain' and j > 0:
+                    continue      # the chain has no interruption index of its own: every single step is an interruption
                 case = '%s interrupted after evaluation %d, %s' % (name, j + 1, mode)
                 try:
-                    if mode in ('continue', 'continue-tol0', 'continue-container'):
+                    if mode == 'single-step-chain':
+                        # the built-in way to interrupt: calls with single_step=True (each stops after the first refinement that adds points), each
+                        # continued by a new call that is handed the run's own refinement, until the final budget is exceeded
+                        c1 = dict(c, single_step=True)
+                        S, rec, ret = DP.run_once(c1, final_lims, checks=False)
+                        for _ in range(40):
+                            if [e['np'] for e in rec.events if e['k'] == 'E'][-1] > final_lims['max']:
+                                break
+                            with impl.quiet(), impl.watchdog(240):
+                                ret = S['combi'].performSpatiallyAdaptiv(c['lmin'], c['lmax'], S['ec'], tol=-1.0, max_evaluations=final_lims['max'], min_evaluations=1,
+                                                                        print_output=False, refinement_container=S['combi'].refinement, single_step=True)
+                        events = []
+                        restored_same = True
+                    elif mode in ('continue', 'continue-tol0', 'continue-container'):
                         S, rec, ret = DP.run_once(c, lims, checks=False)
                         events = rec.events + [DP.ret_event(S, rec, ret, c, lims, with_c05=False)]
                         restored_same = True
@@ -137,7 +152,9 @@ def run(tier, seed):
                     if mode in ('continue', 'continue-tol0', 'continue-container'):
                         rec.tol = cont_tol
                     with impl.quiet(), impl.watchdog(240):
-                        if mode == 'continue-container':
+                        if mode == 'single-step-chain':
+                            ret2 = ret
+                        elif mode == 'continue-container':
                             # the documented third way to continue: a new performSpatiallyAdaptiv call that is handed the refinement of the stopped run
                             ret2 = S['combi'].performSpatiallyAdaptiv(c['lmin'], c['lmax'], S['ec'], tol=cont_tol, max_evaluations=final_lims['max'], min_evaluations=1,
                                                                      print_output=False, refinement_container=S['combi'].refinement)
